@@ -86,6 +86,40 @@ func showStore(s *uefi.NVarStore) string {
 		join(".", gs), join("/", es))
 }
 
+// showStoreDeep: as showStore, every entry followed by the nested store fiano attached to it
+// (same format as Driver/C10.lean showStoreDeep)
+func showStoreDeep(s *uefi.NVarStore) string {
+	var gs, es []string
+	for _, g := range s.GUIDStore {
+		gs = append(gs, core.Hex(g[:]))
+	}
+	for _, e := range s.Entries {
+		x := showEntry(e)
+		if e.NVarStore != nil && len(e.NVarStore.Entries) > 0 {
+			x += "{" + showStoreDeep(e.NVarStore) + "}"
+		}
+		es = append(es, x)
+	}
+	return fmt.Sprintf("ok %d,%d,%d,%d;G:%s;E:%s", s.FreeSpaceOffset, s.GUIDStoreOffset, s.Length, core.FNV(s.Buf()),
+		join(".", gs), join("/", es))
+}
+
+// showChecksums: what parseExtendedHeader reported per entry (same format as the driver op cksum)
+func showChecksums(s *uefi.NVarStore) string {
+	var ss []string
+	for _, e := range s.Entries {
+		switch {
+		case e.Checksum == nil:
+			ss = append(ss, "-")
+		case e.ExpectedChecksum == nil:
+			ss = append(ss, fmt.Sprintf("%d/-", *e.Checksum))
+		default:
+			ss = append(ss, fmt.Sprintf("%d/%d", *e.Checksum, *e.ExpectedChecksum))
+		}
+	}
+	return join(",", ss)
+}
+
 // ---- running the implementation, one step at a time
 
 var debug = os.Getenv("C10_DEBUG") != ""
@@ -207,6 +241,66 @@ func allFull(s *uefi.NVarStore) string {
 	return "all full"
 }
 
+// treeOf reads a (compacted) store as a tree of variables: every entry is a variable; its value is
+// the nested store fiano attached to it (when it has entries) or the content bytes.
+func treeOf(s *uefi.NVarStore) []node {
+	var out []node
+	for _, e := range s.Entries {
+		n := node{GUID: append([]byte(nil), e.GUID[:]...), Name: []byte(e.Name)}
+		if e.NVarStore != nil && len(e.NVarStore.Entries) > 0 {
+			n.Store = true
+			n.Kids = treeOf(e.NVarStore)
+		} else {
+			n.Leaf = entryContent(e)
+		}
+		out = append(out, n)
+	}
+	return out
+}
+
+func shapeOf(s *uefi.NVarStore) string {
+	var ss []string
+	for _, e := range s.Entries {
+		if e.NVarStore != nil && len(e.NVarStore.Entries) > 0 {
+			ss = append(ss, shapeOf(e.NVarStore))
+		} else {
+			ss = append(ss, ".")
+		}
+	}
+	return "[" + strings.Join(ss, "") + "]"
+}
+
+func allFullDeep(s *uefi.NVarStore) string {
+	if r := allFull(s); r != "all full" {
+		return r
+	}
+	for i, e := range s.Entries {
+		if e.NVarStore != nil {
+			if r := allFullDeep(e.NVarStore); r != "all full" {
+				return fmt.Sprintf("nested in entry %d: %s", i, r)
+			}
+		}
+	}
+	return "all full"
+}
+
+func uniqueDeep(ns []node) string {
+	seen := map[string]bool{}
+	for _, n := range ns {
+		k := core.Hex(n.GUID) + "," + core.Hex(n.Name)
+		if seen[k] {
+			return "duplicate " + k
+		}
+		seen[k] = true
+		if n.Store {
+			if r := uniqueDeep(n.Kids); r != "unique" {
+				return r
+			}
+		}
+	}
+	return "unique"
+}
+
 func uniqueKeys(l []liveVar) string {
 	seen := map[string]bool{}
 	for _, v := range l {
@@ -308,6 +402,8 @@ func (prop) Run(c core.Case) core.Outcome {
 			}
 			sortStrings(ls)
 			M("live", "live "+c.Args["recipe"], join("/", ls))
+			// the tree of current variables of the recursive grammar (two independent readings)
+			M("deep", "deep "+c.Args["recipe"], showTree(rc.deepLive()))
 		}
 		if strings.HasPrefix(c.Kind, "wf") {
 			// self-check of the generator (not an oracle on fiano)
@@ -336,12 +432,16 @@ func (prop) Run(c core.Case) core.Outcome {
 	}
 	wfBasic := rc != nil && flags.wf && !wfBasicOverride
 	wfAll := rc != nil && flags.all() && !wfBasicOverride
-	var results []string
+	var results, resultsDeep []string
 	var modelOps []string
 	live := []liveVar{}
+	nested := rc != nil && rc.hasNested()
+	var tree []node
 	if wfAll {
 		live = rc.live()
+		tree = rc.deepLive()
 	}
+	deepM := wfAll && nested
 	invalidated := map[string]bool{}
 	compacted := false
 	var lastBuf []byte
@@ -351,17 +451,37 @@ func (prop) Run(c core.Case) core.Outcome {
 	step := func(res string) bool {
 		if res != "ok" {
 			results = append(results, res)
+			resultsDeep = append(resultsDeep, res)
 			return false
 		}
 		results = append(results, showStore(ss.store))
+		if deepM {
+			resultsDeep = append(resultsDeep, showStoreDeep(ss.store))
+		}
 		return true
 	}
 	okSoFar := step(res)
 	classes = append(classes, "parse:"+res)
+	if res == "ok" {
+		// the extended-header checksum fiano reports (stored byte, expected byte when the sum is not 0)
+		cp := pol
+		if ss.fvMode && pol != 0xFF {
+			cp = 0
+		}
+		M("cksum", fmt.Sprintf("cksum %d %s", cp, core.Hex(img)), showChecksums(ss.store))
+		if rc != nil && flags.wf {
+			// oracle from the recipe alone: which entries carry a checksum, and whether it holds
+			O("ext-checksum-report", rc.checksums(), showChecksums(ss.store))
+		}
+	}
 	if wfBasic {
 		O("wf-parse-ok", "ok", res)
 		if res == "ok" {
 			O("wf-parse-count", fmt.Sprint(len(rc.Entries)), fmt.Sprint(len(ss.store.Entries)))
+			if nested {
+				// every value that is a store (with entries) was found and parsed, to any depth
+				O("nested-parse-shape", rc.shape(), shapeOf(ss.store))
+			}
 		}
 	}
 	for _, op := range ops {
@@ -416,7 +536,10 @@ func (prop) Run(c core.Case) core.Outcome {
 			invalidated[string(core.UnHex(op[4:]))] = true
 		case "reparse":
 			invalidated = map[string]bool{} // invalidation is in-memory only
-			if compacted && wfAll {
+			if compacted && wfAll && nested {
+				O("reparse-deep-live", showTree(tree), showTree(treeOf(ss.store)))
+				O("reparse-all-full-deep", "all full", allFullDeep(ss.store))
+			} else if compacted && wfAll {
 				O("reparse-live-set", sortedLive(live), sortedLive(entriesAsLive(ss.store)))
 				O("reparse-all-full", "all full", allFull(ss.store))
 			} else if !compacted {
@@ -425,6 +548,30 @@ func (prop) Run(c core.Case) core.Outcome {
 		case "compact":
 			O("compact-same-length", fmt.Sprint(len(img)), fmt.Sprint(len(buf)))
 			if !wfAll {
+				compacted = true
+				lastBuf = append([]byte(nil), buf...)
+				break
+			}
+			if nested {
+				// nested stores: the TREE of current variables is what compaction keeps (the bytes of a
+				// nested store change: it is compacted too), at every depth only Full entries are left
+				tree = afterCompact(tree, invalidated)
+				invalidated = map[string]bool{}
+				got := treeOf(ss.store)
+				O("compact-all-full-deep", "all full", allFullDeep(ss.store))
+				O("compact-deep-live", showTree(tree), showTree(got))
+				O("compact-unique-keys-deep", "unique", uniqueDeep(got))
+				var s2 *uefi.NVarStore
+				r2 := guard(func() error {
+					var err error
+					s2, err = uefi.NewNVarStore(append([]byte(nil), buf...))
+					return err
+				})
+				O("compact-reparse-ok", "ok", r2)
+				if r2 == "ok" {
+					O("compact-reparse-deep", showTree(tree), showTree(treeOf(s2)))
+					O("compact-reparse-all-full-deep", "all full", allFullDeep(s2))
+				}
 				compacted = true
 				lastBuf = append([]byte(nil), buf...)
 				break
@@ -497,6 +644,11 @@ func (prop) Run(c core.Case) core.Outcome {
 	}
 	req := fmt.Sprintf("run %d %s %s", polArg, core.Hex(img), strings.Join(modelOps, " "))
 	M("run", strings.TrimSpace(req), strings.Join(results, " | "))
+	if deepM {
+		// well-formed nested stores: the in-memory nested stores too, after every step
+		reqd := fmt.Sprintf("rund %d %s %s", polArg, core.Hex(img), strings.Join(modelOps, " "))
+		M("run-deep", strings.TrimSpace(reqd), strings.Join(resultsDeep, " | "))
+	}
 	out.Class = strings.Join(classes, ",")
 	if len(out.Class) > 60 {
 		out.Class = out.Class[:60]
@@ -531,10 +683,18 @@ func (prop) Gen(r *rand.Rand, tier string) []core.Case {
 				kind = "wf:empty-name"
 			}
 			rc := genWF(r, o)
+			if r.Intn(4) == 0 {
+				// stores whose values are stores (depth 2 or 3), link chains at every level
+				kind, rc = "wf:nested", genNested(r, 2+r.Intn(2), -1)
+			}
 			cs = append(cs, recipeCase(kind, rc, genOps(r, rc), "standalone"))
 		case k < 12: // well-formed stores inside a volume
 			rc := genWF(r, genOpts{maxVars: 4})
-			cs = append(cs, recipeCase("wf:fv", rc, genOps(r, rc), "fv"))
+			kind := "wf:fv"
+			if r.Intn(5) == 0 {
+				kind, rc = "wf:fv-nested", genNested(r, 2, -1)
+			}
+			cs = append(cs, recipeCase(kind, rc, genOps(r, rc), "fv"))
 		case k < 15:
 			kind, rc := genSemi(r)
 			cont := "standalone"
